@@ -601,6 +601,42 @@ pub async fn run(out: &mut Out) {
             run_one(out, &reqs[1], &format!("{}({})", u, a), "unary");
         }
     }
+    // every string builtin over a pool of awkward strings: empty, long ASCII, multi-byte characters around the byte offsets
+    // 16 / 32 / 64 / 255, digits with signs and blanks, separators
+    {
+        let mut pool: Vec<String> = vec!["".into(), "0".into(), "+7".into(), " 7".into(), "-0".into(), "9223372036854775808".into(), "abc".into(), "a,b,,c".into(), ",".into(), "10.0.0.1".into(), "x".repeat(100), "9".repeat(40)];
+        for ch in ["é", "日", "😀"] {
+            for lead in [0usize, 1, 2, 3] {
+                for total in [15usize, 31, 33, 63, 65, 254] {
+                    let mut t = "a".repeat(lead);
+                    while t.len() < total {
+                        t.push_str(ch);
+                    }
+                    pool.push(t);
+                }
+            }
+        }
+        let lit = |t: &str| format!("\"{}\"", t.replace('\\', "\\\\").replace('"', "\\\""));
+        for (i, t) in pool.iter().enumerate() {
+            let a = lit(t);
+            let b = lit(&pool[(i * 7 + 3) % pool.len()]);
+            for src in [
+                format!("to_integer({})", a),
+                format!("to_integer({}) + 1", a),
+                format!("to_string({})", a),
+                format!("split({}, \",\")[0]", a),
+                format!("split({}, {})", a, b),
+                format!("strcat([{}, {}])", a, b),
+                format!("{} =~ \"^a\"", a),
+                format!("{} == {}", a, b),
+                format!("{} < {}", a, b),
+                format!("cidr_match({}, \"10.0.0.0/8\")", a),
+                format!("{} _: [{}, \"abc\"]", a, b),
+            ] {
+                run_one(out, &reqs[i % reqs.len()], &src, "strpool");
+            }
+        }
+    }
     let n = if thorough { 60000 } else { 6000 };
     for i in 0..n {
         let r = &reqs[rng.below(reqs.len())];
